@@ -707,8 +707,8 @@ def readColSizes (h : Hdr) (cum : Bool) (ts : List Tok) : R (List Ev) :=
 
 def rctx (cd : Codec) (h : Hdr) : RCtx := ⟨cd, h.nv, h.nv + h.nce, h.nf⟩
 
-/-- one segment after its letter; `ef` = fuel for expressions -/
-def readSeg (cd : Codec) (h : Hdr) (ef : Nat) (t : Tag) (ts : List Tok) : R (List Ev) :=
+/-- one segment after its letter (expression readers get the number of remaining tokens as fuel) -/
+def readSeg (cd : Codec) (h : Hdr) (t : Tag) (ts : List Tok) : R (List Ev) :=
   match t with
   | .segC =>
     match readUIntLt h.nac ts with
@@ -717,7 +717,7 @@ def readSeg (cd : Codec) (h : Hdr) (ef : Nat) (t : Tag) (ts : List Tok) : R (Lis
       match readEol ts with
       | .error e => .error e
       | .ok ts =>
-        match readTopNum (rctx cd h) ef ts with
+        match readTopNum (rctx cd h) ts.length ts with
         | .error e => .error e
         | .ok (e, ts) => .ok ([Ev.acon i e], ts)
   | .segL =>
@@ -727,7 +727,7 @@ def readSeg (cd : Codec) (h : Hdr) (ef : Nat) (t : Tag) (ts : List Tok) : R (Lis
       match readEol ts with
       | .error e => .error e
       | .ok ts =>
-        match readE (rctx cd h) (ef + 1) .log ts with
+        match readE (rctx cd h) (ts.length + 1) .log ts with
         | .error e => .error e
         | .ok (e, ts) => .ok ([Ev.lcon i e], ts)
   | .segO =>
@@ -740,7 +740,7 @@ def readSeg (cd : Codec) (h : Hdr) (ef : Nat) (t : Tag) (ts : List Tok) : R (Lis
         match readEol ts with
         | .error e => .error e
         | .ok ts =>
-          match readTopNum (rctx cd h) ef ts with
+          match readTopNum (rctx cd h) ts.length ts with
           | .error e => .error e
           | .ok (e, ts) => .ok ([Ev.obj i (if ty ≠ 0 then 1 else 0) e], ts)
   | .segV =>
@@ -760,7 +760,7 @@ def readSeg (cd : Codec) (h : Hdr) (ef : Nat) (t : Tag) (ts : List Tok) : R (Lis
             match readLinTerms cd h.nv Ev.cterm nl ts with
             | .error e => .error e
             | .ok (l, ts) =>
-              match readE (rctx cd h) (ef + 1) .num ts with
+              match readE (rctx cd h) (ts.length + 1) .num ts with
               | .error e => .error e
               | .ok (e, ts) => .ok (Ev.cbeg (idx - h.nv) nl :: l ++ [Ev.cend (idx - h.nv) pos e], ts)
   | .segF =>
@@ -794,7 +794,7 @@ def readSeg (cd : Codec) (h : Hdr) (ef : Nat) (t : Tag) (ts : List Tok) : R (Lis
   | _ => .error .invalidSegment
 
 /-- the `for (;;)` loop of `NLReader::Read(0)`; `needB` = `read_bounds` -/
-def readSegs (cd : Codec) (h : Hdr) (ef : Nat) : Nat → Bool → List Tok → Except Err (List Ev)
+def readSegs (cd : Codec) (h : Hdr) : Nat → Bool → List Tok → Except Err (List Ev)
   | 0, _, _ => .error .fuel
   | _ + 1, needB, [] => if needB then .error .missingB else .ok [Ev.endInput]
   | f + 1, needB, .ch .segb :: ts =>
@@ -805,15 +805,15 @@ def readSegs (cd : Codec) (h : Hdr) (ef : Nat) : Nat → Bool → List Tok → E
         match readBndItems cd h false 0 h.nv ts with
         | .error e => .error e
         | .ok (l, ts) =>
-          match readSegs cd h ef f false ts with
+          match readSegs cd h f false ts with
           | .error e => .error e
           | .ok r => .ok (l ++ r)
     else .error .duplicateB
   | f + 1, needB, .ch t :: ts =>
-    match readSeg cd h ef t ts with
+    match readSeg cd h t ts with
     | .error e => .error e
     | .ok (l, ts) =>
-      match readSegs cd h ef f needB ts with
+      match readSegs cd h f needB ts with
       | .error e => .error e
       | .ok r => .ok (l ++ r)
   | _ + 1, _, _ => .error .invalidSegment
@@ -825,7 +825,7 @@ def readTokens (cd : Codec) (ts : List Tok) : Except Err (List Ev) :=
   | .error e => .error e
   | .ok (h, r) =>
     if h.format = 1 ∧ h.arith ≠ 1 then .error .unsupportedArith else
-    match readSegs cd h ts.length (ts.length + 1) true r with
+    match readSegs cd h (ts.length + 1) true r with
     | .error e => .error e
     | .ok evs => .ok (Ev.header h :: evs)
 
@@ -836,7 +836,7 @@ namespace MpVerif.C03
 /-! ## `READ_BOUNDS_FIRST`: the two passes of `NLReader::Read()` -/
 
 /-- first pass: a `VarBoundHandler` that forwards only `OnVarBounds`; returns right after the `b` segment -/
-def readUntilB (cd : Codec) (h : Hdr) (ef : Nat) : Nat → List Tok → R (List Ev)
+def readUntilB (cd : Codec) (h : Hdr) : Nat → List Tok → R (List Ev)
   | 0, _ => .error .fuel
   | _ + 1, [] => .error .missingB
   | _ + 1, .ch .segb :: ts =>
@@ -844,24 +844,24 @@ def readUntilB (cd : Codec) (h : Hdr) (ef : Nat) : Nat → List Tok → R (List 
     | .error e => .error e
     | .ok ts => readBndItems cd h false 0 h.nv ts
   | f + 1, .ch t :: ts =>
-    match readSeg cd h ef t ts with
+    match readSeg cd h t ts with
     | .error e => .error e
-    | .ok (_, ts) => readUntilB cd h ef f ts
+    | .ok (_, ts) => readUntilB cd h f ts
   | _ + 1, _ => .error .invalidSegment
 
 /-- second pass: `Read(&bound_reader)`; at `b` the reader jumps to where the first pass stopped -/
-def readSkipB (cd : Codec) (h : Hdr) (ef : Nat) : Nat → Option (List Tok) → List Tok → Except Err (List Ev)
+def readSkipB (cd : Codec) (h : Hdr) : Nat → Option (List Tok) → List Tok → Except Err (List Ev)
   | 0, _, _ => .error .fuel
   | _ + 1, _, [] => .ok [Ev.endInput]
   | f + 1, afterB, .ch .segb :: _ =>
     match afterB with
-    | some r => readSkipB cd h ef f none r
+    | some r => readSkipB cd h f none r
     | none => .error .duplicateB
   | f + 1, afterB, .ch t :: ts =>
-    match readSeg cd h ef t ts with
+    match readSeg cd h t ts with
     | .error e => .error e
     | .ok (l, ts) =>
-      match readSkipB cd h ef f afterB ts with
+      match readSkipB cd h f afterB ts with
       | .error e => .error e
       | .ok r => .ok (l ++ r)
   | _ + 1, _, _ => .error .invalidSegment
@@ -872,10 +872,10 @@ def readTokensBF (cd : Codec) (ts : List Tok) : Except Err (List Ev) :=
   | .error e => .error e
   | .ok (h, r) =>
     if h.format = 1 ∧ h.arith ≠ 1 then .error .unsupportedArith else
-    match readUntilB cd h ts.length (ts.length + 1) r with
+    match readUntilB cd h (ts.length + 1) r with
     | .error e => .error e
     | .ok (bnds, afterB) =>
-      match readSkipB cd h ts.length (ts.length + 2) (some afterB) r with
+      match readSkipB cd h (ts.length + 2) (some afterB) r with
       | .error e => .error e
       | .ok evs => .ok (Ev.header h :: bnds ++ evs)
 
